@@ -364,6 +364,15 @@ def classify(gen, unit, res):
     for d in errors:
         msg = d['message']
         is_proof = any(msg.startswith(k) or k in msg for k in PROOF_KINDS) and 'rlimit' not in msg and 'Resource limit' not in msg
+        if not is_proof and ('rlimit' in msg or 'Resource limit' in msg):
+            # a resource-limit hit inside a `__canary` copy means `ensures false` was NOT proved there: that is what the canary wants
+            txt = ' '.join(t.get('text', '') for sp in d.get('spans', []) for t in sp.get('text', []))
+            if '__canary' in txt:
+                f = _describe_failure(gen, unit, d)
+                f['generic_tags'] = list(f['generic_tags']) + ['canary']
+                f['kind'] = 'resource limit in canary copy (false not proved)'
+                failures.append(f)
+                continue
         if not is_proof:
             tool_errors.append(msg + ' :: ' + (d.get('rendered') or '')[:600])
             continue
@@ -460,6 +469,10 @@ def build_and_verify(unit, root, canary=False, rlimit=None, keep_name=None):
         except Exception:
             pass
     res = run_verus(path, rlimit=rlimit)
+    if rlimit is None and not canary and any(('rlimit' in d.get('message', '') or 'Resource limit' in d.get('message', '')) for d in res.get('diags', [])):
+        # slow query: one retry with a larger resource limit before giving up as undecided (never an alarm)
+        res = run_verus(path, rlimit=60)
+        res['retried_with_rlimit'] = 60
     res['cached'] = False
     res['sha_generated'] = h
     if res.get('status') != 'tool-error':
